@@ -690,6 +690,10 @@ fn c13_one(ctx: &mut Ctx, c: &DayCase) {
     let d: Vec<_> = days.into_iter().map(|x| x.unwrap()).collect();
     let la = lat(c).abs();
     ctx.nontrivial(&format!("{}|{:.0}|{:.0}", c.rd, lat(c), lon(c)));
+    // the differences below are taken on the computed hours; the reported times are those hours
+    if !reported_is_computed(ctx, c, &d[1], &[(0, Prayer::Fajr), (1, Prayer::Shurooq), (2, Prayer::Dhuhr), (3, Prayer::Asr), (4, Prayer::Maghrib), (5, Prayer::Isha)]) {
+        return;
+    }
     for (idx, pr) in vh::HOUR_ORDER.iter().enumerate() {
         let limit = match pr {
             Prayer::Dhuhr => 5.,
